@@ -378,8 +378,13 @@ func c11Kinds(r *Run, idx int) {
 	kind := anyKinds[idx%len(anyKinds)]
 	M := []int64{50, 300, 2000}[rng.Intn(3)]
 	var loads atomic.Int64
+	// every other round leaves the cost to a cost function (Set with cost 0)
+	var costFn func(int64) int64
+	if (idx/len(anyKinds))%2 == 1 {
+		costFn = func(v int64) int64 { return v&3 + 1 }
+	}
 	mk := func() (*anyCache, error) {
-		return newAnyCache(kind, anyOpts{MaxSize: M, Loader: func(ctx context.Context, k int) (theine.Loaded[int64], error) {
+		return newAnyCache(kind, anyOpts{MaxSize: M, Cost: costFn, Loader: func(ctx context.Context, k int) (theine.Loaded[int64], error) {
 			loads.Add(1)
 			return theine.Loaded[int64]{Value: -int64(k) - 1, Cost: 1}, nil
 		}})
@@ -405,7 +410,12 @@ func c11Kinds(r *Run, idx int) {
 		case 2:
 			ttl = time.Duration(2+rng.Intn(48)) * time.Hour
 		}
-		if !src.set(k, w.val, w.cost, ttl) {
+		if costFn != nil {
+			w.cost = costFn(w.val)
+			if !src.set(k, w.val, 0, ttl) {
+				continue
+			}
+		} else if !src.set(k, w.val, w.cost, ttl) {
 			continue
 		}
 		wants[k] = w
